@@ -414,7 +414,11 @@ LOOP_RETRY = {"StartAt": "P", "States": {
     "T": {"Type": "Task", "Resource": FN + "f", "Next": "P",
           "Retry": [{"ErrorEquals": ["States.ALL"], "IntervalSeconds": 0, "MaxAttempts": 100000000, "BackoffRate": 1.0}],
           "Catch": [{"ErrorEquals": ["States.ExecutionHistoryLimitExceeded"], "Next": "P"}]}}}
-LOOPS = {"pass-choice": (LOOP_PASS, {"stop": False}, {}),
+LOOP_RETRY_FOREVER = {"StartAt": "T", "States": {
+    "T": {"Type": "Task", "Resource": FN + "f", "End": True,
+          "Retry": [{"ErrorEquals": ["States.ALL"], "IntervalSeconds": 0, "MaxAttempts": 100000000, "BackoffRate": 1.0}]}}}
+LOOPS = {"task-retry-forever": (LOOP_RETRY_FOREVER, {}, {"f": [("err", "Boom", "m")]}),
+         "pass-choice": (LOOP_PASS, {"stop": False}, {}),
          "task-catch-all": (LOOP_CATCH, {}, {"f": [("ok", {})]}),
          "task-retry-and-named-catch": (LOOP_RETRY, {}, {"f": [("ok", {})]})}
 
@@ -454,7 +458,24 @@ def history_probe(case):
             cur += 1
     if cur is not None:
         adds.append(cur)
-    return {"status": fv.get("status"), "error": fv.get("error"), "len": len(hist), "h0": h0, "adds": adds,
+    # the passes through notify: a first entry logs `…StateEntered` (e = 1); a retry re-entry logs nothing (e = 0) and
+    # shows as a second LambdaFunctionScheduled within the same visit
+    passes, cur, sched = [], None, False
+    for e in hist:
+        if e["type"].endswith("StateEntered"):
+            if cur is not None:
+                passes.append(cur)
+            cur, sched = [1, 0], False
+        elif cur is not None:
+            if e["type"] == "LambdaFunctionScheduled":
+                if sched:
+                    passes.append(cur)
+                    cur = [0, 0]
+                sched = True
+            cur[1] += 1
+    if cur is not None:
+        passes.append(cur)
+    return {"status": fv.get("status"), "error": fv.get("error"), "len": len(hist), "h0": h0, "adds": adds, "passes": passes,
             "errors": errors[:1], "tail": [e["type"] for e in hist[-4:]]}
 
 
@@ -674,15 +695,28 @@ def run_names(chk, w, quick):
 
 def check_history(chk, case):
     r = history_probe(case)
+    # the failing pass's own closing event is the model's: take it off what the last pass "appended"
+    passes = [list(p) for p in r["passes"]]
+    if passes and r["error"] == "States.ExecutionHistoryLimitExceeded":
+        passes[-1][1] = max(0, passes[-1][1] - 1)
+        if passes[-1][1] > 0:
+            # the pass that failed appended nothing but the closing event: it was a re-entry (no `…StateEntered`)
+            passes.append([0, 0])
     line = "quota\thist\t%d\t%s" % (r["h0"], pj(r["adds"]))
-    a = common.driver([line])[0].split("\t")
+    linep = "quota\thistp\t%d\t%s" % (r["h0"], pj(passes))
+    a, ap = [x.split("\t") for x in common.driver([line, linep])]
+    if any(p[0] == 0 for p in passes):
+        a = ap                              # retries: only the pass model applies
+    elif a != ap:
+        chk.obligation_broken("histp", "the visit and the pass formulation of the history model disagree on a run without re-entries")
     m = json.loads(a[1]) if a[0] == "ok" else {"model": a[0]}
+    chk.dist("history.passes_reentry", sum(1 for p in passes if p[0] == 0))
     chk.count("hist|" + case["loop"], True)
     chk.dist("history.%s" % case["loop"])
     chk.dist("history.events", r["len"])
     impl = {"status": r["status"], "error": r["error"], "len": r["len"], "tail": r["tail"], "errors": r["errors"]}
     chk.sample({"probe": "history." + case["loop"], "impl": impl, "model": m}, limit=8)
-    k = max(r["adds"]) if r["adds"] else 0
+    k = max(p[1] for p in r["passes"]) if r["passes"] else 0
     c = dict(case, op="hist", stream="hist")
     if r["errors"]:
         chk.report("impl-violates-law", c, impl=impl, law="no exception escapes a handler", classify=classify)
@@ -699,7 +733,7 @@ def check_history(chk, case):
 
 
 def run_history(chk, quick):
-    loops = ["pass-choice", "task-catch-all"] + ([] if quick else ["task-retry-and-named-catch"])
+    loops = ["task-retry-forever", "pass-choice", "task-catch-all"] + ([] if quick else ["task-retry-and-named-catch"])
     done = {c.get("loop") for c in common.load_corpus("C16") if c.get("op") == "hist"}   # ran with the corpus
     loops = [lp for lp in loops if lp not in done]
     for lp in loops:
